@@ -532,6 +532,12 @@ fn c20(args: &Args) -> ! {
     scenarios.push(("error-noparams".into(), "Fail", json!({"name": "org.verif.a.Plain"}), vec![], false, vec!["org.verif.a.Plain".into()], false));
     scenarios.push(("error-params".into(), "Fail", json!({"name": "org.verif.a.WithArgs", "params": {"reason": "because", "n": 7}}), vec![], false, vec!["org.verif.a.WithArgs".into(), "because".into(), "7".into()], false));
     scenarios.push(("error-more".into(), "Fail", json!({"name": "org.verif.a.Plain"}), vec![], false, vec!["org.verif.a.Plain".into()], true));
+    // service-defined errors whose last name component is that of a standard error: reported under their own full name with their own parameters
+    for std in ["MethodNotFound", "InvalidParameter", "InterfaceNotFound", "MethodNotImplemented"] {
+        let name = format!("org.verif.a.{}", std);
+        scenarios.push((format!("error-lookalike-{}", std), "Fail", json!({"name": name, "params": {"why": "custom-reason", "method": "zzz", "parameter": "ppp", "interface": "iii"}}), vec![], false, vec![name.clone(), "custom-reason".into()], false));
+        scenarios.push((format!("failmid-lookalike-{}", std), "FailMid", json!({"vs": [{"i": 0}], "name": name, "params": {"why": "custom-reason"}}), vec![json!({"i": 0})], false, vec![name.clone(), "custom-reason".into()], true));
+    }
     scenarios.push(("std-error-methodnotfound".into(), "Nope", json!({}), vec![], false, vec!["MethodNotFound".into()], false));
     scenarios.push(("stream-without-more".into(), "Stream", json!({"vs": [{"i": 0}]}), vec![], false, vec!["org.verif.a.NeedMore".into()], false));
     let mut all_forms: Vec<(&str, String, Option<String>)> = forms.iter().map(|(n, a)| (*n, a.clone(), None)).collect();
